@@ -26,7 +26,7 @@ BOUNDS = {
               'permission words': 'modes_law: every mode 0..0o7777 of the replaced file and every explicit file_perms 0..0o7777, per umask (fault-free save)'},
     'thorough': {'faults': 'every pair of failing calls', 'writes': '0..3'},
 }
-ASSUMPTIONS = ['fault sites are the steps the statement lists (open, chmod, write, flush, fsync, close, link/rename); stat/lexists/unlink/fdopen are not',
+ASSUMPTIONS = ['fault sites are the steps the statement lists (open+fdopen = creating the part file, chmod, write, flush, fsync, close, link/rename); stat/lexists/unlink are not',
                'fakeos POSIX model (see C04)']
 OUT_OF_CLAIM = ['faults inside os.path helpers', 'signals', 'the real umask syscall', 'more than two faults']
 STUBS = ['boltons.fileutils.os -> vf.fakeos.FakeOS', 'boltons.fileutils.set_cloexec -> no-op counter']
@@ -36,7 +36,7 @@ PART = '/d/f.part'
 OLD = b'old!'
 PERMS = [None, 0o600, 0o644, 0o777]
 UMASKS = [0, 0o022, 0o077]
-FakeFS.NOFAULT = ('stat', 'lexists', 'unlink', 'fdopen', 'after')
+FakeFS.NOFAULT = ('stat', 'lexists', 'unlink', 'after')       # fdopen (wrapping the new descriptor) is part of creating the part file
 
 
 class BodyError(Exception):
